@@ -8,10 +8,15 @@ defaults, NPD header line order, legacy rows/columns, comma vs space separated #
 without noise data.  Every spelling is loaded by vnadata_fload and must give the ground truth (to
 rounding), hence all spellings agree.
 
-Coq: Files/NpdScan.v (header-line state machine of the NPD loader), theorem npd_header_order_partial in
-Properties_C08.v, tied to the loader on the generated NPD spellings (checks/c08_ties.py).  The byte-level
-Touchstone tokenizer model and tok_decoration planned in DESIGN.md were not built: every other clause of
-the property rests on the generator + loader comparison (support, not proof).
+Coq (Properties_C08.v): on the byte-level models Files/TsTok.v (tokenizer) and Files/TsParse.v (parser) every
+well-formed abstract version-1 / version-2 file loads to the object it describes (v1_load, v2_load: induction over
+the record list), hence files with the same content load alike: unit with scaled numbers, option-line order /
+defaults / last wins, Full / Upper / Lower, 12_21 / 21_12, version 1 vs version 2 framing; letter case, blanks,
+comments, blank lines and free line breaks are proved on the bytes and composed with the parser; NPD: header order
+(Files/NpdScan.v) and comment / blank invariance of the whole loader model (Files/NpdLoad.v).  The models are tied
+to the C code on every spelling of the run (checks/tstone_ties.py, checks/c08_ties.py): token streams of
+next_token, field lists of scan_line, and outcome / object of vnadata_fload.  RI vs MA vs DB (cexp, pow) and the
+rounding of strtod are not modelled: those rest on the generator + loader comparison.
 """
 import math
 
@@ -169,16 +174,22 @@ def compare(truth, L, kind, sp):
 def run(ctx):
     ctx.level = "proof"
     ctx.trusted_base = [
-        "Coq 8.16.1 kernel; no axioms (Print Assumptions: Closed under the global context)",
-        "hand-written model coq/Files/NpdScan.v of the NPD header-line state machine (_vnadata_load_npd), tied on every run to "
-        "vnadata_fload on the generated NPD spellings; the #:z0 line and the Touchstone parser are not modelled",
+        "Coq 8.16.1 kernel; no axioms (Print Assumptions: Closed under the global context for every theorem of Properties_C08.v)",
+        "hand-written models coq/Files/TsTok.v (next_char / next_token, strtol / strtod on a word), coq/Files/TsParse.v "
+        "(_vnadata_load_touchstone, load_touchstone1), coq/Files/NpdLoad.v (scan_line, _vnadata_load_npd) and coq/Files/NpdScan.v "
+        "(NPD header lines), extracted to OCaml (ocaml/Extract_tstone.v, glue ocaml/drv_tstone.ml) and compared on every run with "
+        "the compiled C code (harness/tstone_tok.c, which #includes the loader sources to reach the static scanners, and "
+        "vnadata_fload through harness/datafiles_harness.c) on every generated spelling; comparison in lib/tstone.py",
+        "coq/Files/TsSpec.v: the inverse grammar (token stream of an abstract well-formed file, and the object it describes); "
+        "Properties_C08.v shows for concrete files that the bytes of the plain spelling tokenize to that stream",
         "the file generator lib/datafiles.py (format documents -> text) and the comparison with ground truth",
         "gcc, ASan/UBSan/LSan",
     ]
-    ctx.assumptions = ["values compared to 1e-11 relative to the matrix (cexp/pow/strtod rounding is not modelled)"]
+    ctx.assumptions = ["values compared to 1e-11 relative to the matrix (cexp/pow/strtod rounding is not modelled; a model cell "
+                       "keeps an MA / DB pair as written)"]
     ctx.rule = ("one evaluation = one spelling of one data set loaded by vnadata_fload and compared with the ground truth; "
                 "distinct non-trivial = (data set, spelling) pairs that loaded and matched")
-    ok, res = ctx.coq_obligations(["Files/NpdScan.v", "Files/NpdScanProofs.v", "Properties_C08.v"])
+    ok, res = ctx.coq_obligations(tstone_ties.COQ_FILES_C08)
     broken = []
     if not ok:
         broken.append("Coq development of C08 does not build: " + getattr(ctx, "_last_coq_log", "")[-400:])
